@@ -116,7 +116,7 @@ def outcome_of_result(call: dict, r) -> dict:
 BH_KINDS = ["none", "empty", "current", "stale", "future", "flip", "trunc8", "trunc32", "extend", "upper", "newline"]
 BH_WEIGHTS = [("none", 5), ("current", 8), ("stale", 4), ("future", 3), ("flip", 2), ("trunc8", 2), ("trunc32", 1),
               ("extend", 1), ("upper", 1), ("newline", 1), ("empty", 1), ("spaces", 1), ("padded", 1), ("prefixed", 1)]
-STEP_KINDS = [("ext_empty", 2), ("ext_crlf", 2), ("ext_binary", 1), ("content", 8), ("changes", 5), ("normalize", 3), ("content_dry", 2), ("changes_dry", 1), ("normalize_dry", 1),
+STEP_KINDS = [("ext_stealth", 3), ("ext_empty", 2), ("ext_crlf", 2), ("ext_binary", 1), ("content", 8), ("changes", 5), ("normalize", 3), ("content_dry", 2), ("changes_dry", 1), ("normalize_dry", 1),
               ("cli_content", 2), ("cli_changes", 2), ("atomic", 2), ("ext_valid", 3), ("ext_invalid", 1), ("ext_delete", 1),
               ("bad_both", 1), ("bad_path", 1), ("bad_content", 2), ("ext_lenient", 2)]
 
@@ -295,7 +295,23 @@ def _run_history(case, stats, root, target, TARGET):
         kind = st["kind"]
         if kind.startswith("ext_"):
             with seam.passthrough():
-                if kind == "ext_delete":
+                if kind == "ext_stealth":
+                    # modified in place by another program: same inode, same size, SAME mtime -- only the bytes differ.
+                    # A CAS that trusts a stat signature instead of the content is blind to this.
+                    if cur is not None and len(cur) > 0:
+                        st_ = os.stat(target)
+                        data = bytearray(cur)
+                        for i_ in range(len(data) - 1, -1, -1):
+                            if 0x61 <= data[i_] <= 0x79 or 0x41 <= data[i_] <= 0x59 or 0x30 <= data[i_] <= 0x38:
+                                data[i_] += 1
+                                break
+                        fd_ = os.open(target, os.O_WRONLY)
+                        try:
+                            os.write(fd_, bytes(data))
+                        finally:
+                            os.close(fd_)
+                        os.utime(target, ns=(st_.st_atime_ns, st_.st_mtime_ns))
+                elif kind == "ext_delete":
                     if os.path.lexists(target):
                         os.unlink(target)
                 else:
